@@ -97,6 +97,8 @@ func JS(ops []Op) string {
 			b.WriteString("_.out(function(){ return 1; });\n")
 		case "retgetter":
 			b.WriteString("return {get x() { throw new Error('boom'); }};\n")
+		case "throwobj":
+			b.WriteString("throw {toString: function() { throw new Error('boom'); }};\n")
 		case "retcyclic":
 			b.WriteString("var cyc__ = []; cyc__.push(cyc__); return cyc__;\n")
 		default:
@@ -157,7 +159,7 @@ func Native(ops []Op, partial bool) func(context.Context, match.Bindings, core.S
 			case "retnull":
 				exe.Bs = nil
 				return exe, nil
-			case "throw", "emitbad", "retgetter":
+			case "throw", "emitbad", "retgetter", "throwobj":
 				return fail(errBoom)
 			case "retscalar", "retcyclic":
 				return fail(errors.New("42 (int64) isn't Bindings (native)"))
@@ -426,7 +428,7 @@ func Classify(err error) string {
 		return "badbranching"
 	case strings.Contains(s, "not supported"), strings.Contains(s, "can't have a variable as a key"), strings.Contains(s, "unknown pattern type"):
 		return "matcherr"
-	case strings.Contains(s, "json: unsupported type"):
+	case strings.Contains(s, "json: unsupported type"), strings.Contains(s, "script error"):
 		return "thrown"
 	}
 	return "other:" + s
